@@ -45,11 +45,13 @@ def main():
         tests_ok = not re.search(r'\b\d+ (failed|error)', o) and 'passed' in o
         rc1, o1 = sh('/venv/bin/python _seed/%s/demo.py' % sid, cwd=wt, timeout=600)
         out['demo_with_change_rc'] = rc1
-        sh('git stash -q', cwd=wt)
+        # (no git stash here: the stash is shared between worktrees, parallel evaluations would swap patches)
+        sh('git checkout -- supp', cwd=wt)
         rc2, o2 = sh('/venv/bin/python _seed/%s/demo.py' % sid, cwd=wt, timeout=600)
-        sh('git stash pop -q', cwd=wt)
+        rc3, o3 = sh('git apply _seed/%s/patch.diff' % sid + ' || git apply -3 _seed/%s/patch.diff' % sid, cwd=wt)
+        out['patch_reapplied'] = rc3 == 0
         out['demo_without_change_rc'] = rc2
-        out['confirmed'] = bool(out['patch_applies'] and tests_ok and rc1 != 0 and rc2 == 0)
+        out['confirmed'] = bool(out['patch_applies'] and tests_ok and rc1 != 0 and rc2 == 0 and rc3 == 0)
         out['demo_output_with_change'] = o1[-600:]
     except Exception:
         sh('git -C %s worktree remove --force %s' % (REPO, wt))
